@@ -50,6 +50,7 @@ struct JobSpec {
         uint16_t viol = 0;               // invalid-job catalogue id (0 = valid job)
         uint16_t viol2 = 0;
         uint32_t pon_pli = 0;            // PON only
+        uint8_t scatter = 0;             // SGL / multi-call: every segment is its own caller object (non-zero: placement seed)
         uint8_t minimal = 0;             // only the key pointers the direction requires are set (others NULL)
         // SGL ALL: segment cut points (offsets into the message), sorted
         std::vector<uint32_t> cuts;
